@@ -1,8 +1,8 @@
 """C03: every hand-off is a happens-before edge under the declared memory orders."""
 from checks import e3check
 
-QUICK = ['hb_w_w_R3', 'hb_w_r_R3', 'hb_once_spin_R3', 'hb_ctr_obs_R3']
-THOROUGH = ['hb_w_w_R4', 'hb_w_try_R3', 'hb_w2_w_R3', 'hb_w_w_w_R3', 'hb_cv_R3', 'hb_mw_R3', 'hb_once_R3', 'hb_ctr_wait_R3', 'hb_note_obs_R3']
+QUICK = ['hb_w_w_R3', 'hb_w_r_R3', 'hb_passive_w_w_R3', 'hb_once_spin_R3', 'hb_ctr_obs_R3']
+THOROUGH = ['hb_w_w_all_R3', 'hb_w_r_all_R3', 'hb_w_w_R4', 'hb_w_try_R3', 'hb_w2_w_R3', 'hb_w_w_w_R3', 'hb_cv_R3', 'hb_mw_R3', 'hb_once_R3', 'hb_ctr_wait_R3', 'hb_note_obs_R3']
 scenarios, jobs, confirm, info = e3check.make('C03', QUICK, THOROUGH,
     'harness/e3/hb_basic.c with the vector-clock runtime seqcc/rt/vf_hb.h. The atomics in the generated program carry the memory order of the LLVM IR instruction, i.e. the order the real '
     'platform/gcc_new/atomic.h requested at each call site (cmpxchg acquire/release/acq_rel/monotonic, load atomic acquire, store atomic release). Happens-before is computed only from those orders: a release store '
